@@ -79,6 +79,7 @@ def handle (line : String) : String :=
   | ["CRB", x] => ClockRate.handleCRB x
   | "PP" :: args => PerfCalc.handlePP args
   | ["MSKILL", rate, cols, take, objs] => SkillWire.handleMSKILL rate cols take objs
+  | ["TSKILL", sum0, hw, flags, n, recs] => SkillWire.handleTSKILL sum0 hw flags n recs
   | ["CSKILL", rate, cs, take, objs] => SkillWire.handleCSKILL rate cs take objs
   | "OSK" :: args => PerfCalc.handleOSK args
   | ["SLEV", st, sd, v, td, tot, sp] => SliderEvents.handleSLEV st sd v td tot sp
